@@ -64,7 +64,7 @@ func (P *Prog) CG() *CallGraph {
 	// address-taken repo functions
 	taken := map[*ssa.Function]bool{}
 	for _, fn := range P.RepoFns {
-		Instrs(fn, func(in ssa.Instruction) {
+		InstrsRaw(fn, func(in ssa.Instruction) {
 			if mc, ok := in.(*ssa.MakeClosure); ok {
 				if f, ok := mc.Fn.(*ssa.Function); ok {
 					taken[unwrapBound(P, f)] = true
@@ -107,7 +107,7 @@ func (P *Prog) CG() *CallGraph {
 
 	for _, fn := range P.RepoFns {
 		fn := fn
-		Instrs(fn, func(in ssa.Instruction) {
+		InstrsRaw(fn, func(in ssa.Instruction) {
 			ci, ok := in.(ssa.CallInstruction)
 			if !ok {
 				return
